@@ -444,23 +444,42 @@ type ResCase struct {
 	Handle string   `json:"handle"` // wo, rw
 	Unlink string   `json:"unlink"` // remove, rename, removeall
 	After  []string `json:"after"`  // write, writeat, truncate, chmod, close
+	// Nested: the file is p/f instead of f; Parent says what happens to the directory p after the unlink:
+	// "" (stays), "file" (removed and replaced by a regular file), "away" (renamed away), "away+file", "dir" (removed and re-created)
+	Nested bool   `json:"nested,omitempty"`
+	Parent string `json:"parent,omitempty"`
 }
 
 func checkResurrect(c ResCase) (string, string) {
 	b := build(c.Kind)
 	defer b.close()
 	base := fmt.Sprintf("C17/%s resurrect[%s]", c.Kind, c.Unlink)
-	f, err := openKind(b.fs, c.Handle)
+	name := "f"
+	var f hackpadfs.File
+	var err error
+	if c.Nested {
+		base = fmt.Sprintf("C17/%s resurrect[%s,nested,%s]", c.Kind, c.Unlink, c.Parent)
+		name = "p/f"
+		must(hackpadfs.Mkdir(b.fs, "p", 0o755))
+		must(hackpadfs.WriteFullFile(b.fs, name, []byte("hello world"), 0o644))
+		flag := hackpadfs.FlagWriteOnly
+		if c.Handle == "rw" {
+			flag = hackpadfs.FlagReadWrite
+		}
+		f, err = hackpadfs.OpenFile(b.fs, name, flag, 0)
+	} else {
+		f, err = openKind(b.fs, c.Handle)
+	}
 	if err != nil {
 		return base + ":open", err.Error()
 	}
 	switch c.Unlink {
 	case "remove":
-		err = hackpadfs.Remove(b.fs, "f")
+		err = hackpadfs.Remove(b.fs, name)
 	case "removeall":
-		err = hackpadfs.RemoveAll(b.fs, "f")
+		err = hackpadfs.RemoveAll(b.fs, name)
 	case "rename":
-		err = hackpadfs.Rename(b.fs, "f", "g")
+		err = hackpadfs.Rename(b.fs, name, "g")
 	}
 	if err != nil {
 		if errors.Is(err, hackpadfs.ErrNotImplemented) {
@@ -468,19 +487,55 @@ func checkResurrect(c ResCase) (string, string) {
 		}
 		return base + ":unlink-failed", err.Error()
 	}
+	if c.Nested {
+		var perr error
+		switch c.Parent {
+		case "file":
+			perr = hackpadfs.Remove(b.fs, "p")
+			if perr == nil {
+				perr = hackpadfs.WriteFullFile(b.fs, "p", []byte("now a file"), 0o644)
+			}
+		case "away":
+			perr = hackpadfs.Rename(b.fs, "p", "q")
+		case "away+file":
+			perr = hackpadfs.Rename(b.fs, "p", "q")
+			if perr == nil {
+				perr = hackpadfs.WriteFullFile(b.fs, "p", []byte("now a file"), 0o644)
+			}
+		case "dir":
+			perr = hackpadfs.Remove(b.fs, "p")
+			if perr == nil {
+				perr = hackpadfs.Mkdir(b.fs, "p", 0o700)
+			}
+		}
+		if perr != nil {
+			if errors.Is(perr, hackpadfs.ErrNotImplemented) {
+				return "", ""
+			}
+			return base + ":parent-step-failed", perr.Error()
+		}
+	}
 	for _, m := range c.After {
 		pan, hung := vf.Guard(func() { _, _ = call(f, m) })
 		if pan != "" || hung {
 			return base + ":crash:" + m, fmt.Sprintf("%s through the old handle: %s hung=%v", m, pan, hung)
 		}
-		if _, err := hackpadfs.Stat(b.fs, "f"); err == nil || !errors.Is(err, hackpadfs.ErrNotExist) {
-			return base + ":resurrected:" + m, fmt.Sprintf("after %s(\"f\") and %s through a handle opened earlier, Stat(\"f\") = %v (want not-exist)", c.Unlink, m, err)
+		if _, err := hackpadfs.Stat(b.fs, name); err == nil || !(errors.Is(err, hackpadfs.ErrNotExist) || (c.Nested && errors.Is(err, hackpadfs.ErrNotDir))) {
+			return base + ":resurrected:" + m, fmt.Sprintf("after %s(%q) and %s through a handle opened earlier, Stat(%q) = %v (want not-exist)", c.Unlink, name, m, name, err)
 		}
-		des, err := hackpadfs.ReadDir(b.fs, ".")
-		if err == nil {
+		if fh, err := b.fs.Open(name); err == nil {
+			_ = fh.Close()
+			return base + ":resurrected-open:" + m, fmt.Sprintf("after %s(%q) and %s through a handle opened earlier, Open(%q) succeeds", c.Unlink, name, m, name)
+		}
+		listDir := "."
+		if c.Nested {
+			listDir = "p"
+		}
+		des, err := hackpadfs.ReadDir(b.fs, listDir)
+		if err == nil && !(c.Nested && (c.Parent == "file" || c.Parent == "away" || c.Parent == "away+file")) {
 			for _, de := range des {
 				if de.Name() == "f" {
-					return base + ":relisted:" + m, fmt.Sprintf("after %s(\"f\") and %s through the old handle the root lists \"f\" again", c.Unlink, m)
+					return base + ":relisted:" + m, fmt.Sprintf("after %s(%q) and %s through the old handle %q lists \"f\" again", c.Unlink, name, m, listDir)
 				}
 			}
 		}
@@ -494,6 +549,13 @@ func TestResurrect(t *testing.T) {
 		c.Handle = rapid.SampledFrom([]string{"wo", "rw"}).Draw(rt, "handle")
 		c.Unlink = rapid.SampledFrom([]string{"remove", "rename", "removeall"}).Draw(rt, "unlink")
 		c.After = rapid.SliceOfN(rapid.SampledFrom([]string{"write", "writeat", "truncate", "chmod", "sync", "close"}), 1, 4).Draw(rt, "after")
+		if rapid.Bool().Draw(rt, "nested") {
+			c.Nested = true
+			c.Parent = rapid.SampledFrom([]string{"", "file", "away", "away+file", "dir"}).Draw(rt, "parent")
+			if c.Unlink == "rename" && c.Kind == "submem" {
+				// fine: the generic Sub view supports Rename
+			}
+		}
 		if k := knownSig(c); k != "" {
 			rec.Excluded(k)
 			rt.Skip("known finding")
